@@ -49,8 +49,8 @@ func SpecDec(v int64) string { panic("abstract spec function") }
 // the cursor advances by encoding + payload + back-length.
 //@ func Listpack.Next
 //@   arith bv
-//@   properties C03
-//@   replay types_decoders
+//@   properties C03 C04
+//@   replay types_decoders syncer_streamCountHang@syncer
 //@   requires nonnil: lp != nil
 //@   modifies lp.p
 //@   assume listpack_within_the_format_limit: cap(lp.data) <= 1073741824 && lp.p <= 1073741824
